@@ -199,7 +199,7 @@ def run_property(prop, configs, tier, seed, meta, kconfigs=()):
         print('INCONCLUSIVE property=%s cannot build/encode the library: %s' % (prop, str(e)[-1500:]))
         write_evidence(prop, tier, seed, [], meta, time.time() - t0, 0, ['library build failed: ' + str(e)[-500:]], [])
         return 2
-    jobs = min(build.JOBS, max(1, len(configs) + len(kconfigs)))
+    jobs = min(build.JOBS, max(1, len(configs) + sum(getattr(k, 'slots', 1) for k in kconfigs)))
     results = []
     # every configuration runs in its own process under a hard wall-clock limit (a solver call that ignores its timeout
     # must not stall the check: the configuration is then reported as inconclusive)
@@ -216,7 +216,7 @@ def run_property(prop, configs, tier, seed, meta, kconfigs=()):
             conn.send(blank(c, 'worker exception: %s' % str(e)[-500:]))
         conn.close()
     while pending or running:
-        while pending and len(running) < jobs:
+        while pending and sum(getattr(x[2], 'slots', 1) for x in running) + getattr(pending[0], 'slots', 1) <= max(jobs, getattr(pending[0], 'slots', 1)):
             c = pending.pop(0); pc, cc = ctx.Pipe(duplex=False)
             pr = ctx.Process(target=worker, args=(cc, c)); pr.start(); cc.close()
             budget = c.time_budget_s if c.time_budget_s else (90 if tier == 'quick' else 600)
